@@ -650,12 +650,18 @@ class HyperParameters:
                 for boolean_proto in proto.space.boolean_space
             )
 
+        # The proto groups the space by type: restore an order in which every
+        # parent precedes its conditional children (a child carries its parent's
+        # conditions plus one). `sorted` is stable.
+        space = sorted(space, key=lambda hp: len(hp.conditions))
         hps.merge(space)
 
         if isinstance(proto, protos.get_proto().HyperParameters.Values):
             values = proto.values
         else:
             values = proto.values.values
+        # Only the transmitted values count, not the defaults `merge` filled in.
+        hps.values = {}
         for name, val in values.items():
             hps.values[name] = getattr(val, val.WhichOneof("kind"))
 
